@@ -57,7 +57,6 @@ pub fn run(p: &Prog, cfg: &Cfg, rep: &mut Report) {
             &h.id,
             args_strategy(&h.conc),
             rep,
-            |args| json!(args),
             |args, tally| {
                 let built = (p.builders[&h.id])(args)?;
                 tally.class(&format!("kind:{}", h.kind.attr()));
@@ -191,6 +190,9 @@ pub fn mutations(name: &str) -> Vec<String> {
 /// Clause 4: each message type accepts one name per annotated method of its kind, no other.
 fn acceptance(p: &Prog, cfg: &Cfg, rep: &mut Report, handlers: &[HandlerView]) {
     // one fixed argument sample per handler
+    if cfg.replay_case.is_some() {
+        return;
+    }
     let mut observed: std::collections::BTreeMap<String, (String, Vec<Value>)> = Default::default();
     for h in handlers.iter().filter(|h| h.kind.is_enum()) {
         let args = draw(&args_strategy(&h.conc), seed_for(cfg, &p.model.id, &format!("acc:{}", h.id)));
@@ -198,15 +200,15 @@ fn acceptance(p: &Prog, cfg: &Cfg, rep: &mut Report, handlers: &[HandlerView]) {
             Ok(n) => {
                 observed.insert(h.id.clone(), (n, args));
             }
-            Err(Bad::Violation { key, what, detail }) => {
-                rep.failures.push(Failure { program: p.model.id.clone(), what, key, detail });
-                return;
-            }
-            Err(Bad::Harness(e)) => {
-                rep.harness_errors.push(e);
-                return;
+            Err(bad) => {
+                if !fail_fixed(rep, cfg, &p.model.id, "acceptance", json!({"handler": h.id}), bad) {
+                    return;
+                }
             }
         }
+    }
+    if observed.len() != handlers.iter().filter(|h| h.kind.is_enum()).count() {
+        return;
     }
     let mut cands: Vec<String> = vec!["_phantom".into(), "__phantom".into(), "phantom".into(), "".into()];
     for h in handlers {
@@ -233,29 +235,31 @@ fn acceptance(p: &Prog, cfg: &Cfg, rep: &mut Report, handlers: &[HandlerView]) {
                     rep.nontrivial(&(&p.model.id, part, kind, cand));
                 }
                 if accepted != owner.is_some() {
-                    rep.failures.push(Failure {
-                        program: p.model.id.clone(),
-                        what: if accepted {
-                            "message type accepts a name that is not one of its methods".into()
+                    let bad = viol(
+                        format!("accept:{}", kind.attr()),
+                        if accepted {
+                            "message type accepts a name that is not one of its methods"
                         } else {
-                            "message type rejects the name of one of its methods".into()
+                            "message type rejects the name of one of its methods"
                         },
-                        key: format!("accept:{}", kind.attr()),
-                        detail: json!({"part": p.model.part_name(part), "kind": kind.attr(), "doc": doc}),
-                    });
-                    return;
+                        json!({"part": p.model.part_name(part), "kind": kind.attr(), "doc": doc}),
+                    );
+                    if !fail_fixed(rep, cfg, &p.model.id, "acceptance", doc.clone(), bad) {
+                        return;
+                    }
                 }
             }
             // S1 methods must be reachable under their own name
             for h in &mine {
                 if is_s1(&h.name) && observed[&h.id].0 != h.name {
-                    rep.failures.push(Failure {
-                        program: p.model.id.clone(),
-                        what: "wire name differs from the method name".into(),
-                        key: format!("shape:{}", kind.attr()),
-                        detail: json!({"handler": h.id, "wire": observed[&h.id].0}),
-                    });
-                    return;
+                    let bad = viol(
+                        format!("shape:{}", kind.attr()),
+                        "wire name differs from the method name",
+                        json!({"handler": h.id, "wire": observed[&h.id].0}),
+                    );
+                    if !fail_fixed(rep, cfg, &p.model.id, "acceptance", json!({"handler": h.id}), bad) {
+                        return;
+                    }
                 }
             }
         }
